@@ -1462,6 +1462,15 @@ func scenC16(g *Gen, dir string) ([]*Op, func(e *Env, i int, op *Op, obs []strin
 		}
 		ops = append(ops, &Op{Kind: "create", Backend: "buf", COpts: []CreateOpt{{Kind: "cap", I: 12}, {Kind: "det"},
 			{Kind: "descs", DIs: []DI{mk(1, objData[1]), mk(1, objData[2]), mk(2, objData[3])}}}})
+		// an add-after-delete layout: object 1 is deleted and a new object takes its slot and ID,
+		// its data appended at the end — the group's table order is no longer its file order
+		relaid := r.Chance(1, 4)
+		if relaid {
+			objData[1] = r.Bytes(23)
+			ops = append(ops, &Op{Kind: "del", Sel: Sel{Kind: "id", N: 1}, T: TOpt{Kind: "det"}},
+				&Op{Kind: "add", T: TOpt{Kind: "det"}, DI: mk(1, objData[1])})
+			g.count("base:group-table-order-differs-from-file-order")
+		}
 		ent := r.Intn(len(u.PGP))
 		fp := u.PGP[ent].PrimaryKey.Fingerprint
 		ht := pick(r, []crypto.Hash{crypto.SHA256, crypto.SHA384, crypto.SHA512})
@@ -1474,7 +1483,38 @@ func scenC16(g *Gen, dir string) ([]*Op, func(e *Env, i int, op *Op, obs []strin
 			if r.Chance(1, 3) {
 				other = uint32(1 + r.Intn(3))
 			}
+			// … or the armored PGP signature of object 1's genuine signature under a plaintext naming
+			// this object's digest (the packet is real and by a trusted key; it signs another text)
+			forged := uint32(0)
+			var genuine1 []byte
+			if other != 1 && r.Chance(1, 4) {
+				forged = uint32(2 + r.Intn(2))
+				if forged == other {
+					forged = 0
+				}
+			}
 			for id := uint32(1); id <= 3; id++ {
+				if forged != 0 && id == 1 {
+					genuine1 = legacyBlob(ent, objData[1], ht)
+					ops = append(ops, &Op{Kind: "add", T: TOpt{Kind: "det"}, DI: sigObjectDI(genuine1, 0, 1, htN, fp, 0)})
+					legacyKinds["object"] = true
+					continue
+				}
+				if forged != 0 && id == forged && genuine1 != nil {
+					own := legacyBlob(ent, objData[id], ht) // only for its plaintext
+					cut := func(b []byte) (head, tail []byte) {
+						k := bytes.Index(b, []byte("-----BEGIN PGP SIGNATURE-----"))
+						if k < 0 {
+							return b, nil
+						}
+						return b[:k], b[k:]
+					}
+					h, _ := cut(own)
+					_, t := cut(genuine1)
+					ops = append(ops, &Op{Kind: "add", T: TOpt{Kind: "det"}, DI: sigObjectDI(append(append([]byte{}, h...), t...), 0, id, htN, fp, 0)})
+					g.count("object-linked:genuine-packet-under-another-plaintext")
+					continue
+				}
 				if id == other {
 					lb := legacyBlob(ent, objData[id], ht)
 					var blob []byte
@@ -1509,7 +1549,13 @@ func scenC16(g *Gen, dir string) ([]*Op, func(e *Env, i int, op *Op, obs []strin
 				if r.Chance(1, 6) {
 					lfp = nil // a signature descriptor that names nobody
 				}
-				ops = append(ops, &Op{Kind: "add", T: TOpt{Kind: "det"}, DI: sigObjectDI(legacyBlob(ent, append(append([]byte{}, objData[1]...), objData[2]...), ht), 1, 0, htN, lfp, 0)})
+				stream := append(append([]byte{}, objData[1]...), objData[2]...) // table order
+				if relaid && r.Chance(1, 2) {
+					// signed in file order instead: not what the group presents
+					stream = append(append([]byte{}, objData[2]...), objData[1]...)
+					g.count("group-linked:signed-in-file-order")
+				}
+				ops = append(ops, &Op{Kind: "add", T: TOpt{Kind: "det"}, DI: sigObjectDI(legacyBlob(ent, stream, ht), 1, 0, htN, lfp, 0)})
 				legacyKinds["group"] = true
 				nl--
 			} else {
@@ -1645,6 +1691,19 @@ func scenC16(g *Gen, dir string) ([]*Op, func(e *Env, i int, op *Op, obs []strin
 						return &Violation{Prop: "C16", Key: "C16:legacy-fingerprint", What: fmt.Sprintf("legacy signature %d verified although its descriptor's fingerprint is not that of the key that signed", sid), Op: i}
 					}
 				}
+				// … and that key really signed the text the signature object carries: the harness's own
+				// check of the clear-signed message (third-party library called directly) names the same signer
+				if ent := fieldOf(l, "ent"); ent != "-" && ent != "" {
+					really := false
+					for _, fl := range e.factLines() {
+						if strings.HasPrefix(fl, "sf ") && fieldOf(fl, "id") == fmt.Sprint(sid) && fieldOf(fl, "signer") == ent {
+							really = true
+						}
+					}
+					if !really {
+						return &Violation{Prop: "C16", Key: "C16:legacy-not-signed", What: fmt.Sprintf("legacy signature %d was accepted as made by entity %s, but that key did not sign the text it carries", sid, ent), Op: i}
+					}
+				}
 				ids := strings.Split(fieldOf(l, "verified"), ",")
 				var cat []byte
 				taken := map[uint32]int{} // an ID may occur twice after ID tampering: k-th mention = k-th object in table order
@@ -1697,8 +1756,120 @@ func scenC16(g *Gen, dir string) ([]*Op, func(e *Env, i int, op *Op, obs []strin
 }
 
 // C17: signer listings are exact.
+// scenC17Legacy: listings for legacy requests.  Objects 1, 2 (group 1) and 3 (group 2) carry
+// hand-made legacy signatures by various entities, linked to the objects and to group 1; one
+// request may name a group and one of its own objects (two tasks with different signers).
+func scenC17Legacy(g *Gen) ([]*Op, func(e *Env, i int, op *Op, obs []string) *Violation) {
+	r := g.r
+	u := getUniverse()
+	objData := map[uint32][]byte{1: r.Bytes(20), 2: r.Bytes(5), 3: r.Bytes(9)}
+	mk := func(gid uint32, b []byte) DI {
+		return DI{DT: 0x4007, Fail: -1, Data: DataSpec{Lit: b}, Opts: []DIOpt{{Kind: "group", N: gid}}}
+	}
+	ops := []*Op{keysOp(), {Kind: "create", Backend: "buf", COpts: []CreateOpt{{Kind: "cap", I: 16}, {Kind: "det"},
+		{Kind: "descs", DIs: []DI{mk(1, objData[1]), mk(1, objData[2]), mk(2, objData[3])}}}}}
+	objSigners := map[uint32][]int{}
+	var grpSigners []int
+	for id := uint32(1); id <= 3; id++ {
+		for k := r.Intn(3); k > 0; k-- {
+			ent := r.Intn(len(u.PGP))
+			ops = append(ops, &Op{Kind: "add", T: TOpt{Kind: "det"}, DI: sigObjectDI(legacyBlob(ent, objData[id], crypto.SHA256), 0, id, 1, u.PGP[ent].PrimaryKey.Fingerprint, 0)})
+			objSigners[id] = append(objSigners[id], ent)
+		}
+	}
+	for k := r.Intn(3); k > 0; k-- {
+		ent := r.Intn(len(u.PGP))
+		ops = append(ops, &Op{Kind: "add", T: TOpt{Kind: "det"}, DI: sigObjectDI(legacyBlob(ent, append(append([]byte{}, objData[1]...), objData[2]...), crypto.SHA256), 1, 0, 1, u.PGP[ent].PrimaryKey.Fingerprint, 0)})
+		grpSigners = append(grpSigners, ent)
+	}
+	if r.Chance(1, 3) { // a current-format signature on the group: not a legacy signer
+		ops = append(ops, &Op{Kind: "sign", S: SOpts{PGP: r.Intn(len(u.PGP)), Groups: []uint32{1}, T: TOpt{Kind: "det"}, NoSalt: true}})
+	}
+	ops = append(ops, factsOp(), obsOp())
+	sel := VOpts{NoVS: true, NoKR: true, Legacy: true}
+	type task struct {
+		grp uint32
+		obj uint32
+	}
+	var tasks []task
+	switch r.Intn(4) {
+	case 0: // a group and one of its own objects
+		o := uint32(1 + r.Intn(2))
+		sel.Groups, sel.Objects = []uint32{1}, []uint32{o}
+		tasks = []task{{grp: 1}, {obj: o}}
+		g.count("legacy-select:group-and-own-object")
+	case 1:
+		sel.Groups = []uint32{1}
+		tasks = []task{{grp: 1}}
+		g.count("legacy-select:group")
+	case 2:
+		a, b := uint32(1+r.Intn(3)), uint32(1+r.Intn(3))
+		sel.Objects = []uint32{a}
+		tasks = []task{{obj: a}}
+		if b != a {
+			sel.Objects = append(sel.Objects, b)
+			tasks = append(tasks, task{obj: b})
+		}
+		g.count("legacy-select:objects")
+	default: // every object: one task per grouped object
+		sel.Legacy, sel.LegacyAll = false, true
+		tasks = []task{{obj: 1}, {obj: 2}, {obj: 3}}
+		if r.Chance(1, 2) {
+			sel.Groups = []uint32{1}
+			tasks = append([]task{{grp: 1}}, tasks...)
+			g.count("legacy-select:all-and-group")
+		} else {
+			g.count("legacy-select:all")
+		}
+	}
+	qa := len(ops)
+	ops = append(ops, &Op{Kind: "signedby", V: sel, Any: true})
+	qb := len(ops)
+	ops = append(ops, &Op{Kind: "signedby", V: sel, Any: false}, obsOp())
+	check := func(e *Env, i int, op *Op, obs []string) *Violation {
+		if (i != qa && i != qb) || len(obs) == 0 || !strings.HasPrefix(obs[0], "fp ok") {
+			return nil
+		}
+		count := map[string]int{}
+		for _, t := range tasks {
+			per := map[string]bool{}
+			ents := grpSigners
+			if t.obj != 0 {
+				ents = objSigners[t.obj]
+			}
+			for _, ent := range ents {
+				per[hex.EncodeToString(u.PGP[ent].PrimaryKey.Fingerprint)] = true
+			}
+			for fp := range per {
+				count[fp]++
+			}
+		}
+		var want []string
+		for fp, n := range count {
+			if i == qa || n == len(tasks) {
+				want = append(want, fp)
+			}
+		}
+		sort.Strings(want)
+		got := strings.TrimPrefix(obs[0], "fp ok ")
+		if got == "fp ok" {
+			got = ""
+		}
+		if got != strings.Join(want, ",") {
+			which := map[bool]string{true: "AnySignedBy", false: "AllSignedBy"}[i == qa]
+			return &Violation{Prop: "C17", Key: "C17:listing", What: fmt.Sprintf("legacy %s over tasks %v returned [%s], recorded signer fingerprints give [%s]", which, tasks, got, strings.Join(want, ",")), Op: i}
+		}
+		return nil
+	}
+	return ops, check
+}
+
 func scenC17(g *Gen, dir string) ([]*Op, func(e *Env, i int, op *Op, obs []string) *Violation) {
 	r := g.r
+	if r.Chance(1, 4) {
+		g.count("variant:legacy-listings")
+		return scenC17Legacy(g)
+	}
 	u := getUniverse()
 	create, groups := g.baseImage(3, 14)
 	ops := []*Op{keysOp(), create}
